@@ -188,6 +188,8 @@ fn vm_arbitrary() -> (VacancyMap, [u64; 3], usize) {
 }
 /// Same, with a *concrete* number of blocks `ob` (keeps every `Vec` operation concrete-sized:
 /// a symbolic `Vec` length sends CBMC into the reallocation path with a symbolic `memcpy`).
+/// (Assumptions here are satisfiable for every `ob`, so code after a call stays reachable; an
+/// early-return formulation instead of `assume` tripled the formula and ran out of memory.)
 fn vm_arbitrary_blocks(ob: usize) -> (VacancyMap, [u64; 3], usize) {
     let b = [nd::u64(), nd::u64(), nd::u64()];
     let len = nd::usize();
@@ -361,6 +363,10 @@ fn vt_check(t: &VacancyTracker, what_len: usize) -> [u64; 3] {
 fn vt_update_count_all(ob: usize, max_fill: usize) {
     let mut nb = 0;
     while nb <= 3 {
+        if ob == 0 && nb == 0 {
+            nb += 1; // 0 -> 0 slabs is not a change: update_slab_count is never called for it
+            continue;
+        }
         vt_update_count_body(ob, nb, max_fill);
         nb += 1;
     }
